@@ -3,7 +3,7 @@
    get_unchecked outside the slice, every usize underflow and every over-wide shift is a [Fail], so
    [Ok] means none occurred — and a store changes no byte other than those the range covers. *)
 From Coq Require Import ZArith List Bool.
-From DD Require Import Common Carrier Bits BitsSpec BitsProofs BitsRoundtrip.
+From DD Require Import Common Carrier Bits BitsSpec BitsProofs BitsRoundtrip Mir GenErr Layout LayoutProofs FieldSetGen FieldSetGenProofs.
 Import ListNotations.
 Open Scope Z_scope.
 
@@ -39,6 +39,43 @@ Example C03_out_of_bounds_is_UB :
   load 16 LE LSB0 U8 [0; 0; 0] 0 24 = Some (Fail ShiftOvf).
 Proof. vm_compute. repeat split. Qed.
 
+(* ---- Generator half ----
+   For every device the layout passes accept, every accessor the generator emits (model of
+   lir_transform::transform_field_set + field_set_transform; the facts are compared with the call sites
+   of the REAL token stream on every run) addresses a range with
+   0 <= start < end <= declared size <= 8 x byte length, and — for widths up to 128 bits, the widest
+   carrier that exists — a width no larger than its carrier, which is one of 8..128 bits. *)
+Theorem C03_accepted_accessors_in_bounds : forall d l,
+  device_nonneg d -> emitted_field_sets d = Some l ->
+  forall fsf a, In fsf l -> In a (fs_getters fsf ++ fs_setters fsf) -> accessor_in_bounds fsf a.
+Proof. exact accepted_accessors_in_bounds. Qed.
+
+(* ... hence the unchecked bit operation such an accessor calls on the set's own byte array returns
+   normally (no out-of-slice access: C03_ops_safe) with exactly the documented value. *)
+Theorem C03_generated_getters_safe : forall ptrw fsf a bytes,
+  In ptrw ptr_widths -> accessor_in_bounds fsf a -> a_end a - a_start a <= 128 ->
+  bytes_ok bytes -> Z.of_nat (List.length bytes) = fs_size_bytes fsf ->
+  exists c, cty_of (a_signed a) (a_cbits a) = Some c /\
+    getter_call ptrw a bytes =
+      Some (Ok (wrap (cty_ity ptrw c)
+                  (spec_load (to_byte_order (a_byte_order a)) (to_bit_order (a_bit_order a)) bytes (a_start a) (a_end a)))).
+Proof. exact generated_getter_safe_and_exact. Qed.
+
+Theorem C03_generated_setters_safe : forall ptrw fsf a v bytes,
+  In ptrw ptr_widths -> accessor_in_bounds fsf a -> a_end a - a_start a <= 128 ->
+  bytes_ok bytes -> Z.of_nat (List.length bytes) = fs_size_bytes fsf ->
+  exists bytes', setter_call ptrw a v bytes = Some (Ok bytes') /\
+    store_post (to_byte_order (a_byte_order a)) (to_bit_order (a_bit_order a)) v (a_start a) (a_end a) bytes bytes'.
+Proof. exact generated_setter_safe_and_exact. Qed.
+
+(* Fields wider than 128 bits get the non-existent carrier u256/i256: not a memory-safety matter (the
+   output does not compile) — stated, not hidden. *)
+Example C03_wide_field_carrier : carrier_bits 129 = 256 /\ cty_of false 256 = None.
+Proof. vm_compute. split; reflexivity. Qed.
+
 Print Assumptions C03_ops_safe_load.
 Print Assumptions C03_ops_safe_store.
 Print Assumptions C03_store_footprint.
+Print Assumptions C03_accepted_accessors_in_bounds.
+Print Assumptions C03_generated_getters_safe.
+Print Assumptions C03_generated_setters_safe.
